@@ -175,7 +175,7 @@ fn real_trains(tier: Tier) -> Vec<RealTrain> {
             if *lk == "reuse" {
                 let mut s = [0u8; 32];
                 let n = do_encap(&mut enc, &[0x42], 0, 0x0800, l, &mut s).len().unwrap();
-                prefix.push(s[..n].to_vec());
+                prefix.push(s[..(n).min(s.len())].to_vec());
             }
             let lw = if *lk == "reuse" { 0 } else { l.wire_len() };
             let k1 = p / f;
@@ -189,7 +189,7 @@ fn real_trains(tier: Tier) -> Vec<RealTrain> {
             }
             let first = if with_ext { do_encap_ext(&mut enc, &pd, fid, 0x86DD, l, &mut buf, &exts) } else { do_encap(&mut enc, &pd, fid, 0x86DD, l, &mut buf) };
             let EncOut::Fragmented(n, mut ctx) = first else { continue };
-            let mut pkts = vec![buf[..n].to_vec()];
+            let mut pkts = vec![buf[..(n).min(buf.len())].to_vec()];
             let mut done = false;
             for j in 1..f {
                 let rem = p - ctx.pos as usize;
@@ -199,11 +199,11 @@ fn real_trains(tier: Tier) -> Vec<RealTrain> {
                 let mut bb = vec![0u8; b];
                 match do_encap_frag(&enc, &pd, ctx, &mut bb) {
                     EncOut::Fragmented(n2, c2) => {
-                        pkts.push(bb[..n2].to_vec());
+                        pkts.push(bb[..(n2).min(bb.len())].to_vec());
                         ctx = c2;
                     }
                     EncOut::Completed(n2) => {
-                        pkts.push(bb[..n2].to_vec());
+                        pkts.push(bb[..(n2).min(bb.len())].to_vec());
                         done = true;
                         break;
                     }
@@ -619,6 +619,43 @@ pub fn run(tier: Tier) -> i32 {
 /// the trailer is the correct CRC of what is received.
 fn directed_long(rep: &Report) {
     let mut acc = Acc::default();
+    // Variant W: the 65536th byte arrives in an INTERMEDIATE fragment (a 16-bit received-length counter would wrap there
+    // and the write cursor would return to the start of the storage); the train then goes on for `tail` more bytes and
+    // the trailer is the CRC of what a wrapped receiver would find in its storage (the last `tail` bytes over the start
+    // of the stream). The concatenation has 65536 + tail bytes, the first fragment announced tail + 2 + label: no delivery.
+    for (l, lname) in [(L6A, "6B"), (Lbl::Bcast, "BC")] {
+        let lw = l.wire_len();
+        for tail in [3usize, 40, 2048] {
+            let n = 65536 + tail;
+            let t = (tail + 2 + lw) as u16;
+            let pd: Vec<u8> = (0..n).map(|i| (i % 251) as u8).collect();
+            let mut seq: Vec<Vec<u8>> = vec![Desc::first(l, 0x0800, 0, t, &pd[..1]).print()];
+            let mut pos = 1usize;
+            let mut cross_end = 0usize; // stream offset right behind the fragment that carries the 65536th byte
+            while pos < 65536 + tail - 2 {
+                let k = (65536 + tail - 2 - pos).min(4094);
+                seq.push(Desc::inter(0, &pd[pos..pos + k]).print());
+                if pos < 65536 && pos + k >= 65536 {
+                    cross_end = pos + k;
+                }
+                pos += k;
+            }
+            // what a receiver whose 16-bit counter wrapped in that fragment holds: the fragment itself was still written at
+            // its true (high) offset, the counter then reads cross_end - 65536 and everything later lands from there on
+            let w0 = cross_end - 65536;
+            let mut stor = pd[..tail].to_vec();
+            stor[w0..tail].copy_from_slice(&pd[cross_end..]);
+            let crc = crc_ref(t, 0x0800, &l.bytes(), &stor);
+            seq.push(Desc::end(0, &pd[pos..], crc).print());
+            let rx0 = RxS::new(1, 70000, &[70000]);
+            acc.states += 1;
+            let (viols, delivered) = run_seq(&rx0, &RefRx::default(), &seq, &mut acc);
+            acc.outcome(&format!("directed-long-wrap:{}:delivered{}", lname, delivered));
+            for (cl, txt) in viols {
+                rep.violation(&format!("C03|directed-long|{}|{}|wrap-at-intermediate", cl, lname), tail as u64, || (format!("train of {} bytes announcing total length {} (label {}), the 65536th byte arriving in an intermediate fragment, trailer = CRC of what a wrapped 16-bit counter leaves in the storage: {}", n, t, lname, txt), json!({"label": lname, "announced_total_length": t, "received_pdu_bytes": n, "packets": seq.len(), "storage": 70000})));
+            }
+        }
+    }
     for (l, lname) in [(L6A, "6B"), (L3A, "3B"), (Lbl::Bcast, "BC")] {
         let lw = l.wire_len();
         for extra in [0usize, 1, 2, 5] {
